@@ -54,6 +54,8 @@ mutual
     | failJson (e : String)
     /-- `request.forms` on a body over `max_memfile_size`: the shared `errors_map[e]` -/
     | failForm (e : String)
+    /-- `request.forms` on a malformed multipart body: the shared `errors_map[e]` -/
+    | failMultipart (e : String)
   /-- what the router answered -/
   inductive Route
     | handler (ops : List HOp) (out : Outcome)
@@ -618,6 +620,18 @@ def failFormProg (a : AppId) (k : Prog) : Prog :=
   reqBodyObj a .request 2 fun _ =>
   reqContentLength a .request 2 fun _ => k
 
+/-- `request.forms` on a multipart body up to the point where the recorded parse error is raised -/
+def failMultipartProg (a : AppId) (k : Prog) : Prog :=
+  .step a (.fget .request "environ" (rCache 0)) fun _ =>
+  .step a (.dOp (rCache 0) (.has "ombott.request.forms")) fun _ =>
+  .step a (.fget .request "environ" (rCache 1)) fun _ =>
+  .step a (.dOp (rCache 1) (.has "ombott.request.post")) fun _ =>
+  .step a (.fget .request "environ" rWsgiHd) fun _ =>
+  .step a (.dOp rWsgiHd (.set "ombott.request.files" (.str "<files>"))) fun _ =>
+  reqContentType a .request 2 fun _ =>
+  .step a (.dOp rWsgiHd (.set "ombott.request.forms" (.str "<forms>"))) fun _ =>
+  reqBodyObj a .request 2 fun _ => k
+
 /-- the handler's last statement (a property read that raises) and what `_handle` returns -/
 def outcome (a : AppId) : Outcome → (Out → Prog) → Prog
   | .ret s, k => k (.text s)
@@ -628,6 +642,7 @@ def outcome (a : AppId) : Outcome → (Out → Prog) → Prog
   | .crash line exc, k => k (.err (.fresh 500 line "Internal Server Error" [] (.str exc) (.str "<tb>")))
   | .failJson e, k => failJsonProg a (k (.err (.shared e)))
   | .failForm e, k => failFormProg a (k (.err (.shared e)))
+  | .failMultipart e, k => failMultipartProg a (k (.err (.shared e)))
 
 /-- `app(environ, start_response)` for one request; `fuel` bounds the nesting depth -/
 def serve : Nat → Req → Prog → Prog
